@@ -269,10 +269,30 @@ func ruleC03R4(c *Ctx) {
 	okQ := quotaIf != nil
 	why := "no comparison against maxTotalBytes"
 	if okQ {
+		// used + len(Data) > max, or len(Data) > max - used (or mirrored): the side with the chunk's length is the larger
+		// one on the true edge; a difference must be computed in a signed type — max - used in an unsigned type wraps to
+		// almost 2^64 as soon as the bytes on disk exceed the limit (limit lowered between runs, tolerated overshoot), and
+		// from then on nothing is ever over quota
 		bo, isBo := quotaIf.Cond.(*ssa.BinOp)
-		okQ = isBo && (bo.Op == token.GTR || bo.Op == token.GEQ) && mentions(bo.X, isFieldAddrOf("buffer/hybridbuffer.chunkOperatorMetrics.persistentChunkBytes")) &&
-			mentions(bo.X, func(v ssa.Value) bool { return isFieldAddrOf("base.LogChunk.Data")(v) })
-		why = "the quota test is not of the form persistentChunkBytes + len(chunk.Data) > maxTotalBytes"
+		isData := func(v ssa.Value) bool { return isFieldAddrOf("base.LogChunk.Data")(v) }
+		isUsed := isFieldAddrOf("buffer/hybridbuffer.chunkOperatorMetrics.persistentChunkBytes")
+		why = "the quota test is not a comparison of persistentChunkBytes, len(chunk.Data) and maxTotalBytes with the chunk's length on the larger side of the over-quota edge"
+		okQ = isBo && (((bo.Op == token.GTR || bo.Op == token.GEQ) && mentions(bo.X, isData)) || ((bo.Op == token.LSS || bo.Op == token.LEQ) && mentions(bo.Y, isData))) &&
+			(mentions(bo.X, isUsed) || mentions(bo.Y, isUsed))
+		if okQ {
+			unsignedSub := false
+			mentions(quotaIf.Cond, func(v ssa.Value) bool {
+				if sb, ok := v.(*ssa.BinOp); ok && sb.Op == token.SUB {
+					if bt, ok := sb.Type().Underlying().(*types.Basic); ok && bt.Info()&types.IsUnsigned != 0 {
+						unsignedSub = true
+					}
+				}
+				return false
+			})
+			if unsignedSub {
+				okQ, why = false, "the free space (maxTotalBytes − persistentChunkBytes) is computed in an unsigned type: once the bytes on disk exceed the limit (limit lowered between runs, or the overshoot the shutdown path tolerates) the difference wraps to almost 2^64 and every write is allowed — the queue has no space limit any more"
+			}
+		}
 		if okQ {
 			// every path to the write passes the test, and the over-limit edge cannot reach the write
 			q := &PathQ{P: c.P, Barrier: func(in ssa.Instruction) bool { return in == ssa.Instruction(quotaIf) }}
